@@ -223,7 +223,7 @@ func searchShapeJobs(tier string) []Job {
 func init() {
 	propMeta["C04"] = PropMeta{
 		Bounds: map[string]interface{}{
-			"quick":    "L-num: ALL uint32 values and counts (bit-vectors); L-quad: ALL finite doubles with midpoints unconstrained; Search==filter with nondeterministic stop and ANY non-NaN query rectangle (infinities included): series of 0..8 points, open / closed / closed with repeated point, no index and single-node compressed R-tree and quadtree (real constants), threshold below/at/above; moved series n = 4; multi-node trees with node constants scaled down by a source overlay regenerated from the current qtree.go/rtree.go: quadtree (2 items, depth 2) on 3..4 points, every tree shape; R-tree (2 entries) on 3..4 points; a concrete 40-point line moved by 2^52 / 2^51 / 8 (rounding additions, IEEE arithmetic on constants)",
+			"quick":    "L-num: ALL uint32 values and counts (bit-vectors); L-quad: ALL finite doubles with midpoints unconstrained; Search==filter with nondeterministic stop and ANY non-NaN query rectangle (infinities included): series of 0..8 points, open / closed / closed with repeated point, no index and single-node compressed R-tree and quadtree (real constants), threshold below/at/above; moved series n = 4; multi-node trees with node constants scaled down by a source overlay regenerated from the current qtree.go/rtree.go: quadtree (2 items, depth 2) on 3..4 points, every tree shape; R-tree (2 entries) on 3..4 points; a concrete 40-point line moved by 2^52 / 2^51 / 8 (rounding additions, IEEE arithmetic on constants); concrete 40..300-point layouts with the real node constants (R-tree of height 2, quadtree depth-limit buckets) under every query rectangle, also with a nondeterministic stop at every segment",
 			"thorough": "series up to 16 points (R-tree) / 32 (quadtree) single node; quadtree shapes on 5 points",
 		},
 		Outside:     []string{"multi-node trees with the real constants (more than 32 / 16 segments) symbolically: covered only through the scaled-constant configurations", "4-byte item encodings (> 65535 segments): covered by L-num only", "order-independence of the predicates under permuted report order (not built)"},
@@ -269,6 +269,12 @@ func init() {
 			out = append(out, Job{Pkg: "geometry", Harness: "H_Search_Template", Params: []int{t[0], t[1], t[2]}, Timeout: 120, Unwind: 600, NoCover: t[1] != 257,
 				Note: "S-template: concrete layout, real node constants (multi-level trees, depth-limit buckets, 2-byte item encodings), every query rectangle"})
 		}
+		// the full search contract (exactly-once, index, nondeterministic stop at every segment) on concrete layouts with
+		// the real constants: R-tree of height 2 (300 segments), quadtrees with depth-limit buckets and inner items
+		for _, t := range [][3]int{{2, 300, 1}, {3, 100, 1}, {2, 257, 2}, {1, 300, 2}, {0, 40, 2}} {
+			out = append(out, Job{Pkg: "geometry", Harness: "H_Search_Template", Params: []int{t[0], t[1], t[2], 1}, Timeout: 120, Unwind: 600, Combine: true, NoCover: t[1] != 300 || t[2] != 1,
+				Note: "S-template with stops: concrete layout, real node constants, every query rectangle, stop allowed at every segment"})
+		}
 		// a concrete line moved by a delta that makes the additions round (IEEE arithmetic on constants)
 		for _, ke := range [][2]int{{2, 52}, {1, 52}, {2, 3}, {2, 51}} {
 			out = append(out, Job{Pkg: "geometry", Harness: "H_Search_MovedTemplate", Params: []int{ke[0], ke[1]}, Timeout: 120, Unwind: 600, IntBound: 1 << 53, NoCover: ke[1] != 3,
@@ -283,7 +289,7 @@ func init() {
 	propMeta["C11"] = PropMeta{
 		Bounds: map[string]interface{}{
 			"quick":    "all 11 non-Circle kinds built with the public constructors: Point, SimplePoint, LineString of 0..5 points, Polygon 3..5 + hole 0/3/4 with and without the repeated closing position, Rect, MultiPoint 0..3, MultiLineString (lines of 0..3 points, empties mixed in), MultiPolygon, GeometryCollection and FeatureCollection of [point, line, polygon with hole, nested collection [rect, empty line]], single-child collection, Feature; ALL real coordinate values (comparisons are exact for every finite double; -0 == +0 numerically)",
-			"thorough": "lines to 16 points, polygons (all three construction forms) to 12+8 and 16+0, MultiPoint to 10, MultiLineString 8+6, MultiPolygon 8+5, collections with a line of 8 / 6 points and a polygon with a 5 / 6-point hole",
+			"thorough": "lines to 16 points, polygons (all three construction forms) to 8+5 and 10+0 (12+8 and 16+0 were tried: the centre-in-box query is undecided within 60 s there), MultiPoint to 10, MultiLineString 8+6, MultiPolygon 6+4 (larger collections were tried: their centre query, a midpoint of differently nested min/max folds, is undecided within 60 s)",
 		},
 		Outside:     []string{"Circle (its rectangle is trigonometric: C13, not applicable)", "objects built by Parse (gjson)", "more children / deeper nesting than listed", "Center is compared with the same (min+max)/2 expression evaluated exactly: float rounding of the midpoint is not modelled"},
 		Stubs:       []string{},
@@ -311,13 +317,10 @@ func init() {
 		if tier == "thorough" {
 			for _, k := range []int{3, 11, 12} {
 				add(k, 8, 5)
-				add(k, 12, 8)
-				add(k, 16, 0)
+				add(k, 10, 0)
 			}
-			add(7, 8, 5)
+			add(7, 6, 4)
 			add(6, 8, 6)
-			add(8, 8, 5)
-			add(9, 6, 6)
 			for n := 4; n <= 10; n++ {
 				add(5, n, 0)
 			}
@@ -547,7 +550,7 @@ func init() {
 	propMeta["C09"] = PropMeta{
 		Bounds: map[string]interface{}{
 			"quick":    "all 144 ordered pairs of the twelve kinds on shapes of up to three positions with ALL real coordinates for the duality / wrapper-transparency clauses (Circle built with steps=3, its polygon coordinates being opaque trigonometric terms; and again with a CONCRETE circle at (10,20), radius 1000 m, whose polygon is computed by libm on constants, against every symbolic partner); all 121 ordered pairs of the eleven non-Circle kinds with one fixed small shape each and the second under ALL real translations for the semantic clauses (symmetry of intersects, contains => intersects and rectangle cover, intersects => rectangles intersect, self-containment, Rect == five-point polygon)",
-			"thorough": "same",
+			"thorough": "as quick, and the semantic clauses for all four combinations of the two base shapes (right triangle / flat triangle) of the pair",
 		},
 		Outside:     []string{"Circle in the semantic clauses (C13: not applicable)", "larger shapes than three positions per object; collections of more than two children", "Rect transparency is checked for the fixed shapes under all translations, not for all rectangles"},
 		Stubs:       []string{"Segment.Raycast, Segment.IntersectsSegment -> specs (proved in-run)", "geo.* trigonometry: opaque finite values for symbolic arguments; Go's own libm evaluated natively for concrete arguments"},
@@ -572,6 +575,11 @@ func init() {
 					continue
 				}
 				out = append(out, Job{Pkg: "geojson", Harness: "H_Obj_Sem", Params: []int{a, b}, Timeout: 120, Scale: true, Contracts: c, NoCover: a+b > 0})
+				if tier == "thorough" {
+					for _, mask := range []int{0, 1, 3} {
+						out = append(out, Job{Pkg: "geojson", Harness: "H_Obj_Sem", Params: []int{a, b, mask}, Timeout: 120, Scale: true, Contracts: c, NoCover: true})
+					}
+				}
 			}
 		}
 		return out
